@@ -36,6 +36,12 @@ CHECKS = {
  "C07": dict(level="model_checking", technique="CrossHair/z3 bounded symbolic execution: one inductive step of the real store classes from every valid pre-state, all observers compared with a dictionary reference model",
              text="STEP lemma: for MemoryStore, FileStore (ShimFS), ProxyStore, IndexerStore, OverlayStore with empty fall-back, MountPointStore and the default global composition (quick: 4 of the 9 configurations), from each of 28 valid pre-states over a 6-key universe, each well-formed operation (store, metadata update, remove, makedir, recursive / empty removedir, reads) with payload length 0..2 and symbolic caller metadata leaves a state that equals the reference model through every observer (bytes, caller fields, key/name/is_dir/size/md5, listings, frame condition). The path tree is exhausted per (configuration, operation).",
              design="§4 C07"),
+ "C11": dict(level="model_checking", technique="CrossHair/z3 bounded symbolic execution of the state-type round trips through encode_state_data / decode_state_data / copy_state_data on the live registry",
+             text="Claimed in part: text and bytes round trip for every value of length <=3 (thorough 4); json for None, int -99..99, short str, dicts with <=2 keys (pool incl. '' and a key containing a quote) and int/None/str/list leaves, nesting depth <=2 (thorough); identifier dispatch over 7 value kinds; copy independence for nested lists/dicts. pickle/parquet/feather/DataFrame formats, floats and the djson format are outside the claim (C libraries / engine limits).",
+             design="§4 C11"),
+ "C12": dict(level="model_checking", technique="CrossHair/z3: symbolic pre-emption point over cache-operation (and file-access) windows of real evaluations sharing one cache; nested schedules only",
+             text="Claimed for nesting schedules: for 5 (thorough 9) pairs of overlapping queries and MemoryCache / StoreCache (thorough + FileCache on ShimFS, + a third evaluation nested at depth 2) every window k in which the second evaluation runs to completion inside the first is a solver decision; each evaluation returns what it returns alone and every ready entry left in the cache equals a fresh evaluation of its key. Alternating (non-nested) thread schedules, the pool and the web server are outside the claim.",
+             design="§4 C12"),
  "C13": dict(level="model_checking", technique="CrossHair/z3 bounded symbolic execution: one-step map lemma over cache back-ends and combinators from API-reached pre-states chosen by solver decisions; path-scheme kernel on free symbolic key strings",
              text="In-process back-ends only (MemoryCache, CacheProxy, FileCache/ShimFS, StoreCache flat+nested on MemoryStore and FileStore/ShimFS, '+' with MemoryCache/NoCache, four conditional wrappers with symbolic attribute value; quick: 7 of 14): from every pre-state (each of 3 (thorough 4) confusable keys absent/ready/metadata-only) one operation (store of 5 value types, store_metadata evaluation/ready, remove, clean, reads) leaves get/get_metadata/contains/keys of every key equal to the map model. Kernel: nested StoreCache.to_path is injective and prefix-free for |k1|<=2 (4), |k2|<=|k1|+14 outside the listed collision. SQL/XOR/Fernet caches are outside the claim.",
              design="§4 C13"),
